@@ -37,6 +37,9 @@ type Node struct {
 	Keys      []string `json:"keys,omitempty"`
 	Shorthand bool     `json:"shorthand,omitempty"` // case written without a 'case' statement
 	MapList   bool     `json:"maplist,omitempty"`   // struct stores: back this list by a Go map
+	Module    string   `json:"module,omitempty"`    // defining module when not the main one ("g")
+	Bits      []string `json:"bits,omitempty"`
+	Rich      bool     `json:"rich,omitempty"` // module: emit the companion module g (identities, groupings)
 	Children  []*Node  `json:"children,omitempty"`
 
 	Parent *Node `json:"-"`
@@ -177,7 +180,85 @@ func (n *Node) Yang() string {
 
 func ind(b *strings.Builder, d int) { b.WriteString(strings.Repeat("  ", d)) }
 
+// IdentModule says which module defines an identity of the rich schema.
+func IdentModule(id string) string {
+	if strings.HasPrefix(id, "idm") {
+		return "m"
+	}
+	return "g"
+}
+
+// Idents are the identities derived from g:base0 in a rich schema.
+var Idents = []string{"ida", "idb", "idm1", "idm2"}
+
+// Modules returns the YANG text of every module of the schema keyed by module
+// name; the first return value is the main module's name.
+func (n *Node) Modules() (string, map[string]string) {
+	out := map[string]string{n.Name: n.Yang()}
+	if n.Rich {
+		var b strings.Builder
+		b.WriteString("module g {\n  namespace \"urn:verif:g\";\n  prefix g;\n  revision 2024-01-01;\n")
+		b.WriteString("  identity base0;\n  identity ida { base base0; }\n  identity idb { base ida; }\n")
+		n.Walk(func(x *Node) {
+			if x.Kind == Container && x.Module == "g" && (x.Parent == nil || x.Parent.Module != "g") {
+				fmt.Fprintf(&b, "  grouping grp_%s {\n", x.Name)
+				x.yangBody(&b, 2, true)
+				b.WriteString("  }\n")
+			}
+		})
+		b.WriteString("}\n")
+		out["g"] = b.String()
+	}
+	return n.Name, out
+}
+
+// yangBody emits n as a plain statement; inG restricts children to those
+// defined in module g.
+func (n *Node) yangBody(b *strings.Builder, d int, inG bool) {
+	saved := n.Children
+	if inG {
+		var keep []*Node
+		for _, c := range n.Children {
+			if c.Module == "g" {
+				keep = append(keep, c)
+			}
+		}
+		n.Children = keep
+	}
+	m := n.Module
+	n.Module = "g!" // suppress the uses rewrite for this node
+	n.yang(b, d)
+	n.Module = m
+	n.Children = saved
+}
+
 func (n *Node) yang(b *strings.Builder, d int) {
+	if n.Kind == Container && n.Module == "g" && (n.Parent == nil || !strings.HasPrefix(n.Parent.Module, "g")) {
+		// defined by a grouping of module g, with main-module children added by a uses-augment
+		ind(b, d)
+		fmt.Fprintf(b, "uses g:grp_%s", n.Name)
+		var extra []*Node
+		for _, c := range n.Children {
+			if c.Module != "g" {
+				extra = append(extra, c)
+			}
+		}
+		if len(extra) == 0 {
+			b.WriteString(";\n")
+			return
+		}
+		b.WriteString(" {\n")
+		ind(b, d+1)
+		fmt.Fprintf(b, "augment \"%s\" {\n", n.Name)
+		for _, c := range extra {
+			c.yang(b, d+2)
+		}
+		ind(b, d+1)
+		b.WriteString("}\n")
+		ind(b, d)
+		b.WriteString("}\n")
+		return
+	}
 	if n.Kind == Case && n.Shorthand {
 		// children written directly below the choice
 		for _, c := range n.Children {
@@ -195,6 +276,14 @@ func (n *Node) yang(b *strings.Builder, d int) {
 		fmt.Fprintf(b, "prefix %s;\n", n.Name)
 		ind(b, d+1)
 		b.WriteString("revision 2024-01-01;\n")
+		if n.Rich {
+			ind(b, d+1)
+			b.WriteString("import g { prefix g; }\n")
+			ind(b, d+1)
+			b.WriteString("identity idm1 { base g:base0; }\n")
+			ind(b, d+1)
+			b.WriteString("identity idm2 { base g:ida; }\n")
+		}
 	case Container:
 		fmt.Fprintf(b, "container %s {\n", n.Name)
 	case List:
@@ -219,8 +308,24 @@ func (n *Node) yang(b *strings.Builder, d int) {
 			}
 			ind(b, d+1)
 			b.WriteString("}\n")
+		case "bits":
+			b.WriteString("type bits {\n")
+			for i, e := range n.Bits {
+				ind(b, d+2)
+				fmt.Fprintf(b, "bit %s { position %d; }\n", e, i)
+			}
+			ind(b, d+1)
+			b.WriteString("}\n")
 		case "decimal64":
 			b.WriteString("type decimal64 { fraction-digits 2; }\n")
+		case "identityref":
+			if n.Module == "g" {
+				b.WriteString("type identityref { base base0; }\n")
+			} else {
+				b.WriteString("type identityref { base g:base0; }\n")
+			}
+		case "union":
+			b.WriteString("type union { type int32; type string; }\n")
 		default:
 			fmt.Fprintf(b, "type %s;\n", n.Type)
 		}
